@@ -1286,3 +1286,70 @@ def check_realloc_keep(ck, prog, config, clause):
               r.violations[0].node.line if r.violations else fn.line, path=r.violations[0].path if r.violations else None,
               config=config)
     return n
+
+
+# ------------------------------------------------------------------ R1.count-compare
+def check_count_compare(ck, prog, config, clause, callee='multipart_extract'):
+    """A function with the convention "0 is failure, anything else success" whose non-zero result is *not* the count it
+    was asked to handle (it returns a size parameter after adding to it what it had carried over from earlier calls)
+    may only be tested against zero by its callers.  Comparing the result with the caller's own count turns every
+    call that had something carried over - a piece that ends inside a part header, one byte per call - into a failure:
+    the outcome depends on how the transport cut the response."""
+    from ..ir import calls_in as _ci, callee_name as _cn, strip as _st, walk as _wk, const_value as _cv, walk_stmts as _ws
+    from ..program import all_exprs as _ae, is_assign_op as _ia
+    fn = prog.need_func(callee)
+    sizes = dict((p.decl, p.op) for p in fn.params if not (p.t or '').rstrip().endswith('*'))
+    reassigned = set()
+    for ex in _ae(fn):
+        for n in _wk(ex):
+            if n.k == 'bin' and _ia(n.op):
+                l = _st(n.a[0])
+                if l is not None and l.k == 'var' and l.decl in sizes:
+                    reassigned.add(l.decl)
+    returns_own = False
+    for st in _ws(fn.body):
+        if st.k == 'return' and st.e is not None:
+            e = _st(st.e)
+            while e is not None and e.k == 'cast' and e.a:
+                e = _st(e.a[0])
+            if e is not None and e.k == 'var' and e.decl in reassigned:
+                returns_own = True
+    if not returns_own:
+        ck.ob(clause, 'R1.count-compare', callee, 'returns-request-count', True,
+              '%s() does not return a reassigned size parameter: its result can be compared with the request' % callee,
+              fn.file, fn.line, config=config, trivial=True)
+        return 0
+    bad = None
+    n = 0
+    for cf, c in prog.callers().get(fn.qname, []):
+        n += 1
+        # the variable holding the result (or the call itself inside a condition)
+        holders = set()
+        for st in _ws(cf.body):
+            if st.k == 'decl' and st.e is not None and any(x is c or getattr(x, 'uid', None) == c.uid for x in _wk(st.e) if x.k == 'call'):
+                holders.add(st.var.decl)
+        for ex in _ae(cf):
+            for x in _wk(ex):
+                if x.k == 'bin' and x.op == '=' and any(y.k == 'call' and getattr(y, 'uid', None) == c.uid for y in _wk(x.a[1])):
+                    l = _st(x.a[0])
+                    if l is not None and l.k == 'var':
+                        holders.add(l.decl)
+        for ex in _ae(cf):
+            for x in _wk(ex):
+                if x.k == 'bin' and x.op in ('==', '!=', '<', '>', '<=', '>='):
+                    sides = [_st(x.a[0]), _st(x.a[1])]
+                    for i_, sd in enumerate(sides):
+                        while sd is not None and sd.k == 'cast' and sd.a:
+                            sd = _st(sd.a[0])
+                        is_res = sd is not None and ((sd.k == 'var' and sd.decl in holders) or
+                                                     (sd.k == 'call' and getattr(sd, 'uid', None) == c.uid))
+                        if is_res and _cv(x.a[1 - i_]) is None:
+                            bad = bad or (cf, x)
+    ck.ob(clause, 'R1.count-compare', callee, 'callers-test-zero-only', bad is None,
+          '%s() returns its own accounting (request plus what it had carried over); its %d caller(s) test the result against '
+          'zero only' % (callee, n) if bad is None else
+          '%s() compares the result of %s() with a count of its own: the result is the length of the stitched buffer '
+          '(carried-over bytes plus the new piece), so every piece that follows a carried-over part header fails although '
+          'it was handled - the outcome depends on where the transport cut the response'
+          % (bad[0].name, callee), bad[1].file if bad else fn.file, bad[1].line if bad else fn.line, config=config)
+    return n
